@@ -161,7 +161,7 @@ def r3(ctx):
 @rule("R-C07-4", min_instances=4, title="nothing else answers: WebSocketApp's read() writes nothing to the socket for any frame (the receive loop already replied)")
 def r4(ctx):
     from .c13 import r1 as routing, r6 as no_handler
-    routing(ctx)
+    routing(ctx, siblings_only=True)  # the reply/no-reply table; C13's own clause about first fragments is not C07's
     no_handler(ctx)
 
 
